@@ -1,5 +1,9 @@
 import PhononModel.Lemmas.DerivDynMat
 import PhononModel.Model.Gruneisen
+import PhononModel.Model.GroupVelocity
+import Mathlib.Algebra.BigOperators.Field
+import Mathlib.Algebra.Order.Field.Basic
+import Mathlib.Algebra.Order.AbsoluteValue.Basic
 import Mathlib.Algebra.BigOperators.Fin
 import Mathlib.Algebra.BigOperators.Group.Finset.Basic
 import Mathlib.Tactic.FinCases
@@ -816,6 +820,197 @@ def FullStatement_gv_eq_grad_freq : Prop :=
 
 end analysis
 
+/-! ### finite-difference option, little-group symmetrisation, degenerate subspaces -/
+
+section fd
+variable {K : Type} [Field K] {d : Nat}
+
+/-- **the central difference of a family that is quadratic in the step is exact** -/
+theorem fdD_exact_quadratic (A B C : Mat d K) (h : K) (hh : h ≠ 0) (h2 : (2 : K) ≠ 0) :
+    fdD (fun r c => (⟨(A r c).re + h * (B r c).re + h * h * (C r c).re, (A r c).im + h * (B r c).im + h * h * (C r c).im⟩ : Cx K))
+        (fun r c => (⟨(A r c).re - h * (B r c).re + h * h * (C r c).re, (A r c).im - h * (B r c).im + h * h * (C r c).im⟩ : Cx K)) h
+      = B := by
+  funext r c
+  apply Cx.ext'
+  · simp only [fdD]; field_simp; ring
+  · simp only [fdD]; field_simp; ring
+
+/-- error-bound form (scalar): a cubic remainder `≤ M·h³` on both sides gives `|FD − b| ≤ M·h²` -/
+theorem central_diff_error [LinearOrder K] [IsStrictOrderedRing K] (a b c fp fm M h : K) (hh : 0 < h)
+    (hp : |fp - (a + b * h + c * h * h)| ≤ M * h * h * h) (hm : |fm - (a - b * h + c * h * h)| ≤ M * h * h * h) :
+    |(fp - fm) / h / 2 - b| ≤ M * h * h := by
+  have e : (fp - fm) / h / 2 - b = ((fp - (a + b * h + c * h * h)) - (fm - (a - b * h + c * h * h))) / (2 * h) := by
+    field_simp; ring
+  rw [e, abs_div, abs_of_pos (by positivity : (0:K) < 2 * h)]
+  rw [div_le_iff₀ (by positivity)]
+  calc |fp - (a + b * h + c * h * h) - (fm - (a - b * h + c * h * h))|
+      ≤ |fp - (a + b * h + c * h * h)| + |fm - (a - b * h + c * h * h)| := abs_sub _ _
+    _ ≤ M * h * h * h + M * h * h * h := add_le_add hp hm
+    _ = M * h * h * (2 * h) := by ring
+
+/-- entrywise for the finite-difference option of `GroupVelocity` -/
+theorem fdD_error_bound [LinearOrder K] [IsStrictOrderedRing K] (A B C Dp Dm : Mat d K) (M h : K) (hh : 0 < h)
+    (hp : ∀ r c, |(Dp r c).re - ((A r c).re + (B r c).re * h + (C r c).re * h * h)| ≤ M * h * h * h
+               ∧ |(Dp r c).im - ((A r c).im + (B r c).im * h + (C r c).im * h * h)| ≤ M * h * h * h)
+    (hm : ∀ r c, |(Dm r c).re - ((A r c).re - (B r c).re * h + (C r c).re * h * h)| ≤ M * h * h * h
+               ∧ |(Dm r c).im - ((A r c).im - (B r c).im * h + (C r c).im * h * h)| ≤ M * h * h * h)
+    (r c : Fin d) :
+    |(fdD Dp Dm h r c).re - (B r c).re| ≤ M * h * h ∧ |(fdD Dp Dm h r c).im - (B r c).im| ≤ M * h * h :=
+  ⟨central_diff_error _ _ _ _ _ M h hh (hp r c).1 (hm r c).1, central_diff_error _ _ _ _ _ M h hh (hp r c).2 (hm r c).2⟩
+end fd
+
+section sym
+variable {K : Type} [Field K] {n : Nat}
+
+theorem sumList_ofFn {β : Type} (f : Fin n → β) (g : β → K) : sumList (List.ofFn f) g = ∑ s, g (f s) := by
+  rw [sumList_eq, List.map_ofFn, List.sum_ofFn]; rfl
+
+theorem mul3_eq (A B : M3 K) : mul3 A B = fun i j => ∑ k, A i k * B k j := by
+  funext i j; simp only [mul3, sumFin_eq]
+theorem mulVec3_eq (A : M3 K) (v : Fin 3 → K) : mulVec3 A v = fun i => ∑ k, A i k * v k := by
+  funext i; simp only [mulVec3, sumFin_eq]
+
+theorem mulVec3_mul3 (A B : M3 K) (v : Fin 3 → K) : mulVec3 A (mulVec3 B v) = mulVec3 (mul3 A B) v := by
+  funext i
+  simp only [mulVec3_eq, mul3_eq, Fin.sum_univ_three]; ring
+
+theorem mul3_assoc (A B C : M3 K) : mul3 (mul3 A B) C = mul3 A (mul3 B C) := by
+  funext i j
+  simp only [mul3_eq, Fin.sum_univ_three]; ring
+
+def one3 : M3 K := fun i j => if i = j then 1 else 0
+theorem mul3_one (A : M3 K) : mul3 A one3 = A := by
+  funext i j; simp only [mul3_eq, one3, Fin.sum_univ_three]; fin_cases j <;> simp
+theorem one3_mul (A : M3 K) : mul3 one3 A = A := by
+  funext i j; simp only [mul3_eq, one3, Fin.sum_univ_three]; fin_cases i <;> simp
+
+theorem gvSym_ofFn (Rc : Fin n → M3 K) (v : Fin 3 → K) (x : Fin 3) :
+    gvSym (List.ofFn Rc) v x = (∑ s, mulVec3 (Rc s) v x) / (n : K) := by
+  unfold gvSym; rw [sumList_ofFn, List.length_ofFn]
+
+/-- the Cartesian rotations multiply as the integer operations do -/
+theorem simTrans_mul (B Binv : M3 K) (hB : mul3 Binv B = one3) (r s u : Fin 3 → Fin 3 → Int)
+    (h : ∀ i j, (∑ k, r i k * s k j) = u i j) : mul3 (simTrans B Binv r) (simTrans B Binv s) = simTrans B Binv u := by
+  unfold simTrans
+  have hc : mul3 (castM3 r) (castM3 s) = (castM3 u : M3 K) := by
+    funext i j
+    simp only [mul3_eq, castM3, ← h i j]
+    push_cast; rfl
+  calc mul3 (mul3 B (mul3 (castM3 r) Binv)) (mul3 B (mul3 (castM3 s) Binv))
+      = mul3 B (mul3 (castM3 r) (mul3 (mul3 Binv B) (mul3 (castM3 s) Binv))) := by simp only [mul3_assoc]
+    _ = mul3 B (mul3 (mul3 (castM3 r) (castM3 s)) Binv) := by rw [hB, one3_mul, mul3_assoc]
+    _ = _ := by rw [hc]
+
+/-- (i) a vector fixed by every operation is returned unchanged -/
+theorem gv_sym_fixes_invariant (Rc : Fin n → M3 K) (hn : (n : K) ≠ 0) (v : Fin 3 → K)
+    (hv : ∀ s, mulVec3 (Rc s) v = v) : gvSym (List.ofFn Rc) v = v := by
+  funext x
+  rw [gvSym_ofFn]
+  simp only [hv, Finset.sum_const, Finset.card_univ, Fintype.card_fin, nsmul_eq_mul]
+  field_simp
+
+/-- (ii) the output is fixed by every operation of the list, provided the list is closed under multiplication
+(`tab` = its multiplication table, rows without repetition — the certificate `groupTableOk`) -/
+theorem gv_sym_output_invariant (Rc : Fin n → M3 K) (tab : Fin n → Fin n → Fin n)
+    (hmul : ∀ s t, mul3 (Rc s) (Rc t) = Rc (tab s t)) (hinj : ∀ s, Function.Injective (tab s))
+    (v : Fin 3 → K) (s : Fin n) : mulVec3 (Rc s) (gvSym (List.ofFn Rc) v) = gvSym (List.ofFn Rc) v := by
+  funext x
+  have hw : gvSym (List.ofFn Rc) v = fun y => (∑ t, mulVec3 (Rc t) v y) / (n : K) := by
+    funext y; exact gvSym_ofFn Rc v y
+  have hlin : mulVec3 (Rc s) (fun y => (∑ t, mulVec3 (Rc t) v y) / (n : K)) x
+      = (∑ t, mulVec3 (Rc s) (mulVec3 (Rc t) v) x) / (n : K) := by
+    simp only [mulVec3_eq, Fin.sum_univ_three, Finset.sum_add_distrib, ← Finset.mul_sum]; ring
+  rw [hw, hlin]
+  simp only [mulVec3_mul3, hmul]
+  congr 1
+  exact Fintype.sum_equiv (Equiv.ofBijective (tab s) (Finite.injective_iff_bijective.1 (hinj s))) _ _ (fun t => rfl)
+
+/-- (iii) `gv_symmetrize_fixed`: symmetrisation is a projection onto the vectors fixed by the little group -/
+theorem gv_symmetrize_fixed (Rc : Fin n → M3 K) (hn : (n : K) ≠ 0) (tab : Fin n → Fin n → Fin n)
+    (hmul : ∀ s t, mul3 (Rc s) (Rc t) = Rc (tab s t)) (hinj : ∀ s, Function.Injective (tab s)) (v : Fin 3 → K) :
+    (∀ s, mulVec3 (Rc s) (gvSym (List.ofFn Rc) v) = gvSym (List.ofFn Rc) v)
+    ∧ gvSym (List.ofFn Rc) (gvSym (List.ofFn Rc) v) = gvSym (List.ofFn Rc) v
+    ∧ ((∀ s, mulVec3 (Rc s) v = v) → gvSym (List.ofFn Rc) v = v) :=
+  ⟨gv_sym_output_invariant Rc tab hmul hinj v,
+   gv_sym_fixes_invariant Rc hn _ (gv_sym_output_invariant Rc tab hmul hinj v),
+   gv_sym_fixes_invariant Rc hn v⟩
+
+/-- the same for the model's own pipeline: operations selected by `littleGroup`, Cartesian rotations `B·r·B⁻¹` -/
+theorem symmetrizeGv_fixed [LinearOrder K] (ops : List (Fin 3 → Fin 3 → Int)) (B Binv : M3 K) (hB : mul3 Binv B = one3)
+    (qbz : Fin 3 → K) (tol : K) (rs : Fin n → Fin 3 → Fin 3 → Int) (hrs : littleGroup ops qbz tol = List.ofFn rs)
+    (hn : (n : K) ≠ 0) (tab : Fin n → Fin n → Fin n)
+    (hmul : ∀ s t i j, (∑ k, rs s i k * rs t k j) = rs (tab s t) i j) (hinj : ∀ s, Function.Injective (tab s))
+    (v : Fin 3 → K) :
+    (∀ s, mulVec3 (simTrans B Binv (rs s)) (symmetrizeGv ops B Binv qbz tol v) = symmetrizeGv ops B Binv qbz tol v)
+    ∧ symmetrizeGv ops B Binv qbz tol (symmetrizeGv ops B Binv qbz tol v) = symmetrizeGv ops B Binv qbz tol v
+    ∧ ((∀ s, mulVec3 (simTrans B Binv (rs s)) v = v) → symmetrizeGv ops B Binv qbz tol v = v) := by
+  have e : ∀ w, symmetrizeGv ops B Binv qbz tol w = gvSym (List.ofFn fun s => simTrans B Binv (rs s)) w := by
+    intro w; unfold symmetrizeGv; rw [hrs, List.map_ofFn]; rfl
+  simp only [e]
+  exact gv_symmetrize_fixed (fun s => simTrans B Binv (rs s)) hn tab
+    (fun s t => simTrans_mul B Binv hB _ _ _ (hmul s t)) hinj v
+end sym
+
+section degenerate
+variable {K : Type} [Field K] {d m : Nat}
+
+/-- the group velocities of a degenerate set are the diagonal of `U†·(E†·∂D·E)·U`: rotating the eigenvectors
+and restricting the derivative commute -/
+theorem gvDeg_eq_restrict (E : Fin d → Fin m → Cx K) (U : Fin m → Fin m → Cx K) (ddm : Mat d K) (ν : Fin m) :
+    gvDeg E U ddm ν = (∑ a, Cx.conj (U a ν) * ∑ b, restrict E ddm a b * U b ν).re := by
+  unfold gvDeg expect quadForm matVec rotated restrict
+  simp only [sumFin_eq]
+  congr 1
+  have h1 : ∀ r, (∑ c, ddm r c * ∑ b, E c b * U b ν) = ∑ b, (∑ c, ddm r c * E c b) * U b ν := by
+    intro r
+    simp only [Finset.mul_sum, Finset.sum_mul]
+    rw [Finset.sum_comm]
+    apply Finset.sum_congr rfl; intro b _
+    apply Finset.sum_congr rfl; intro c _; ring
+  have h2 : ∀ r, Cx.conj (∑ a, E r a * U a ν) = ∑ a, Cx.conj (E r a) * Cx.conj (U a ν) := by
+    intro r; rw [Cx.conj_sum]; apply Finset.sum_congr rfl; intro a _; rw [Cx.conj_mul]
+  simp only [h1, h2]
+  calc (∑ r, (∑ a, Cx.conj (E r a) * Cx.conj (U a ν)) * ∑ b, (∑ c, ddm r c * E c b) * U b ν)
+      = ∑ r, ∑ a, Cx.conj (U a ν) * ∑ b, (Cx.conj (E r a) * ∑ c, ddm r c * E c b) * U b ν := by
+        apply Finset.sum_congr rfl; intro r _
+        rw [Finset.sum_mul]
+        apply Finset.sum_congr rfl; intro a _
+        rw [Finset.mul_sum, Finset.mul_sum]
+        apply Finset.sum_congr rfl; intro b _; ring
+    _ = ∑ a, Cx.conj (U a ν) * ∑ r, ∑ b, (Cx.conj (E r a) * ∑ c, ddm r c * E c b) * U b ν := by
+        rw [Finset.sum_comm]
+        apply Finset.sum_congr rfl; intro a _
+        rw [Finset.mul_sum]
+    _ = ∑ a, Cx.conj (U a ν) * ∑ b, (∑ r, Cx.conj (E r a) * ∑ c, ddm r c * E c b) * U b ν := by
+        apply Finset.sum_congr rfl; intro a _
+        congr 1
+        rw [Finset.sum_comm]
+        apply Finset.sum_congr rfl; intro b _
+        rw [Finset.sum_mul]
+
+/-- **the group velocities of a degenerate subspace along the perturbation direction are the spectrum of the
+restricted derivative**: if `U` diagonalises `P = E†·ddms[0]·E` (`P U = U diag(μ)`, normalised columns — what `eigh` returns),
+`diag(rot†·ddms[0]·rot).real = μ`. -/
+theorem perturbD_spectrum (E : Fin d → Fin m → Cx K) (U : Fin m → Fin m → Cx K) (ddm0 : Mat d K) (μ : Fin m → K)
+    (heig : ∀ a ν, (∑ b, restrict E ddm0 a b * U b ν) = (⟨μ ν, 0⟩ : Cx K) * U a ν)
+    (hnorm : ∀ ν, (∑ a, Cx.conj (U a ν) * U a ν) = 1) (ν : Fin m) :
+    gvDeg E U ddm0 ν = μ ν := by
+  rw [gvDeg_eq_restrict]
+  simp only [heig]
+  have : (∑ a, Cx.conj (U a ν) * ((⟨μ ν, 0⟩ : Cx K) * U a ν)) = (⟨μ ν, 0⟩ : Cx K) * ∑ a, Cx.conj (U a ν) * U a ν := by
+    rw [Finset.mul_sum]; apply Finset.sum_congr rfl; intro a _; ring
+  rw [this, hnorm]
+  simp
+
+/-- for a non-degenerate band (`m = 1`, `U = 1`) this is the expectation value used by `gvMode` -/
+theorem gvDeg_single (e : Fin d → Cx K) (ddm : Mat d K) :
+    gvDeg (fun r (_ : Fin 1) => e r) (fun _ _ => 1) ddm 0 = expect e ddm := by
+  unfold gvDeg rotated
+  congr 1
+  funext r
+  simp [sumFin_eq]
+end degenerate
+
 end PhononModel.C12
 
 #print axioms PhononModel.C12.coefC_eq_coefPy
@@ -837,3 +1032,11 @@ end PhononModel.C12
 #print axioms PhononModel.C12.gv_eq_grad_freq_partial
 #print axioms PhononModel.C12.hellmann_feynman
 #print axioms PhononModel.C12.gv_eq_grad_freq_of_branch_partial
+#print axioms PhononModel.C12.fdD_exact_quadratic
+#print axioms PhononModel.C12.fdD_error_bound
+#print axioms PhononModel.C12.simTrans_mul
+#print axioms PhononModel.C12.gv_symmetrize_fixed
+#print axioms PhononModel.C12.symmetrizeGv_fixed
+#print axioms PhononModel.C12.gvDeg_eq_restrict
+#print axioms PhononModel.C12.perturbD_spectrum
+#print axioms PhononModel.C12.gvDeg_single
